@@ -116,7 +116,7 @@ def run_impl(case, rng):
     node.metadata_for = lambda i, c: json.loads(json.dumps(sims[i]))
     client = make_client(key, node)
     opg = OperationGroup(context=client.context, contents=[dict(c) for c in case['contents']])
-    ok, res = lib.call(getattr(opg, case['mode']))
+    ok, res = lib.call(getattr(opg, case['mode']), **case.get('args', {}))
     if not ok:
         return None, f'{type(res).__name__}: {res}'
     final = res.contents
@@ -239,7 +239,7 @@ def run(ctx: lib.Ctx) -> None:
             bls_signed += 1
         cases.append(c)
     # the witnesses of the findings file are replayed first (they must still fail: they document the class)
-    witness_cases = finding_witnesses(keys) + kind_sweep(keys, rng) + boundary_cases(keys, rng) + residue_cases(keys)[::3]
+    witness_cases = finding_witnesses(keys) + kind_sweep(keys, rng) + option_cases(keys, rng) + boundary_cases(keys, rng) + residue_cases(keys)[::3]
 
     coq_cases, meta = [], []
     reported = 0
@@ -257,8 +257,9 @@ def run(ctx: lib.Ctx) -> None:
         ctx.case(key, nontrivial=nontriv, kind=f"{case['mode']}:{CURVES[case['curve']]}:n{min(case['n'], 4)}{'+' if case['n'] > 4 else ''}:{'ok' if out['covers'] else 'under'}",
                  sample={'mode': case['mode'], 'curve': CURVES[case['curve']], 'kinds': [c['kind'] for c in case['contents']],
                          'fee': out['fee'], 'gas': out['gas'], 'signed_bytes': out['signed_len'], 'node_minimum': out['need']})
-        coq_cases.append(coq_case(case, out))
-        meta.append((case, out))
+        if not case.get('oracle_only'):
+            coq_cases.append(coq_case(case, out))
+            meta.append((case, out))
         # ---- (B) the property on the implementation's output
         if not out['covers'] and not case['preset']:
             cls = classify(ctx, case, out)
@@ -334,6 +335,25 @@ def kind_sweep(keys, rng):
                 for cv in (b'ed', b'sp', b'p2'):
                     out.append(dict(curve=cv, key=keys[cv][0], n=1, mode=mode, hard_gas=1_040_000, hard_storage=60000,
                                     node_counter=rng.choice([0, 127, 16383, 10 ** 6]), pending=0, contents=[dict(c)], preset=False))
+    return out
+
+
+def option_cases(keys, rng):
+    """autofill() with its optional arguments (gas_reserve, burn_reserve, ttl): the fee is still chosen by the client.  The model has
+    the default reserves only, so these cases are judged by the oracle (B) alone."""
+    out = []
+    for gr in (0, 1, 7, 9, 10, 19, 50, 100, 1000):
+        for r in range(10):
+            for n in (1, 2) if r % 3 == 0 else (1,):
+                c = plain_case(keys, n, [(160 + r) * 1000 + (r % 2)] * n, curve=rng.choice([b'ed', b'sp', b'p2']))
+                c['args'] = {'gas_reserve': gr, 'burn_reserve': rng.choice([0, 1, 100, 500]), 'ttl': rng.choice([None, 5, 60, 120])}
+                c['oracle_only'] = True
+                out.append(c)
+    for kind in ('origination', 'transaction', 'delegation', 'reveal'):
+        for gr in (0, 7, 15):
+            c = dict(curve=b'ed', key=keys[b'ed'][0], n=1, mode='autofill', hard_gas=1_040_000, hard_storage=60000, node_counter=127, pending=1,
+                     contents=[G.rand_content(rng, kind, unset=True)], preset=False, args={'gas_reserve': gr, 'burn_reserve': 0}, oracle_only=True)
+            out.append(c)
     return out
 
 
@@ -435,6 +455,7 @@ def replay_doc(case, out):
          'contents': case['contents'], 'node_constants': {'hard_gas_limit_per_operation': case['hard_gas'],
                                                            'hard_storage_limit_per_operation': case['hard_storage']},
          'node_counter': case['node_counter'], 'pending_in_mempool': case['pending'], 'run_operation_metadata': case.get('sims'),
+         'call_arguments': case.get('args', {}),
          'repro': "harness/c24.py run_impl(case): OperationGroup(context=make_client(key, SimNode(constants)).context, contents=contents)."
                   f"{case['mode']}(); compare sum(fee) with 100 + len(binary_payload) + ceil(sum(gas_limit)/10)"}
     if out:
@@ -465,6 +486,9 @@ def case_from_doc(doc):
              preset=any(x.get('gas_limit', '0') != '0' or x.get('storage_limit', '0') != '0' for x in doc['contents']))
     if doc.get('run_operation_metadata'):
         c['sims'] = doc['run_operation_metadata']
+    if doc.get('call_arguments'):
+        c['args'] = doc['call_arguments']
+        c['oracle_only'] = True
     return c
 
 
